@@ -139,8 +139,17 @@ func judgeREST(c *Ctx, srv *server, k restCase) { judgeRESTWith(c, srv, k, nil, 
 
 // judgeRESTWith judges a well-formed request; with pre == nil it sends the request itself, otherwise pre is the answer
 // already obtained for it by another transport (a pipelined connection) between the instants pt0 and pt1.
+// endpoints for which a no-response violation has been confirmed in this run: further requests to them are skipped
+// (and counted), so that the cost of a verdict on a server whose endpoint hangs stays bounded (each unanswered request
+// costs two 60-second waits). Only ever filled after a violation has been recorded.
+var deadEndpoints sync.Map
+
 func judgeRESTWith(c *Ctx, srv *server, k restCase, pre *httpResult, pt0, pt1 int64) {
 	r := c.R
+	if _, dead := deadEndpoints.Load(k.EP); dead && pre == nil {
+		r.Count("requests_skipped_after_a_confirmed_no_response_of_their_endpoint", 1)
+		return
+	}
 	var body []byte
 	if k.F != nil {
 		body = jsonBody(k.F)
@@ -185,6 +194,7 @@ func judgeRESTWith(c *Ctx, srv *server, k restCase, pre *httpResult, pt0, pt1 in
 			return
 		case home.Err == nil:
 			v("no-response", "a well-formed request stays unanswered (twice, 60 s each) while the server answers GET / promptly", "200 + JSON", res2.Err.Error())
+			deadEndpoints.Store(k.EP, true)
 			return
 		default:
 			r.Inconclusive("a well-formed request and GET / both went unanswered: " + k.EP)
